@@ -1,10 +1,10 @@
 package main
 
 import (
-	"go/types"
 	"fmt"
 	"go/constant"
 	"go/token"
+	"go/types"
 	"strings"
 
 	"golang.org/x/tools/go/ssa"
@@ -218,7 +218,9 @@ func propC16(c *Ctx, r *Report) {
 	ruleLoopVarAlias(c, r, "C16/loopvar-alias", reachOf(c, "node.Pegnetd.recordPegnetRequests", "node.Pegnetd.ApplyTransactionBatchesInHolding"))
 	sbk := c.fn("node.Pegnetd.SyncBank")
 	evalEra("pn_bank row inserted iff V4 <= h < V20, with 5,000 PEG for height h", sbk,
-		func(h uint32) *Scenario { return &Scenario{Params: map[string]AVal{"type:uint32": hconst(h)}, MaxDepth: 0} },
+		func(h uint32) *Scenario {
+			return &Scenario{Params: map[string]AVal{"type:uint32": hconst(h)}, MaxDepth: 0}
+		},
 		func(h uint32, t *Trace) string {
 			if h >= v4 && h < v20 {
 				return fmt.Sprintf("(%d,%d)", h, bank5k)
@@ -257,32 +259,61 @@ func propC16(c *Ctx, r *Report) {
 	r.rule("C16/second-pass-provenance", 2, "yield, refund, history and bank record come from the same payout values")
 	{
 		var bad []string
-		lp := findCalls(rp, "conversions.ConversionSupplySet.Payouts")
-		adds := findCalls(rp, "pegnet.Pegnet.AddToBalance")
-		ref := findCalls(rp, "conversions.Refund")
-		hist := findCalls(rp, "pegnet.Pegnet.SetTransactionHistoryPEGConvertedRequestAmount")
-		upd := findCalls(rp, "pegnet.Pegnet.UpdateBankEntry")
-		ncs := findCalls(rp, "conversions.NewConversionSupply")
+		// the anchors may sit in recordPegnetRequests or in a helper split off from it (per-request settlement)
+		lp := c.findCallsFam(rp, "conversions.ConversionSupplySet.Payouts")
+		adds := c.findCallsFam(rp, "pegnet.Pegnet.AddToBalance")
+		ref := c.findCallsFam(rp, "conversions.Refund")
+		hist := c.findCallsFam(rp, "pegnet.Pegnet.SetTransactionHistoryPEGConvertedRequestAmount")
+		upd := c.findCallsFam(rp, "pegnet.Pegnet.UpdateBankEntry")
+		ncs := c.findCallsFam(rp, "conversions.NewConversionSupply")
 		if len(lp) != 1 || len(adds) != 2 || len(ref) != 1 || len(hist) != 1 || len(upd) != 1 || len(ncs) != 1 {
 			bad = append(bad, fmt.Sprintf("anchors: Payouts=%d AddToBalance=%d Refund=%d history=%d UpdateBankEntry=%d NewConversionSupply=%d", len(lp), len(adds), len(ref), len(hist), len(upd), len(ncs)))
 		} else {
 			// pegYield = range value over Payouts()
-			var yield ssa.Value
-			allInstrs(rp, func(ins ssa.Instruction) {
+			var yield0 ssa.Value
+			allInstrs(lp[0].Parent(), func(ins ssa.Instruction) {
 				if ex, ok := ins.(*ssa.Extract); ok && ex.Index == 2 {
 					if nx, ok := ex.Tuple.(*ssa.Next); ok {
 						if rg, ok := nx.Iter.(*ssa.Range); ok && sliceHas(rg.X, func(v ssa.Value) bool { return v == lp[0].(ssa.Value) }) {
-							yield = ex
+							yield0 = ex
 						}
 					}
 				}
 			})
+			// the yield as each function of the family sees it: the range value itself, or the parameter of a helper
+			// that is handed it (possibly converted)
+			yields := map[*ssa.Function]ssa.Value{}
+			if yield0 != nil {
+				yields[lp[0].Parent()] = yield0
+				for changed, n := true, 0; changed && n < 4; n++ {
+					changed = false
+					for f, y := range yields {
+						for _, ci := range callsOf(f) {
+							sc := ci.Common().StaticCallee()
+							if sc == nil || !isNewHelper(sc) || yields[sc] != nil {
+								continue
+							}
+							for i, a := range ci.Common().Args {
+								if unwrapConv(a) == y && i < len(sc.Params) {
+									yields[sc] = sc.Params[i]
+									changed = true
+								}
+							}
+						}
+					}
+				}
+			}
+			isYield := func(v ssa.Value, at ssa.Instruction) bool {
+				y := yields[at.Parent()]
+				return y != nil && unwrapConv(v) == y
+			}
+			yield := yield0
 			if yield == nil {
 				bad = append(bad, "no range over limit.Payouts() found")
 			} else {
 				var pegAdd, refAdd ssa.CallInstruction
 				for _, ad := range adds {
-					if ad.Common().Args[4] == yield {
+					if isYield(ad.Common().Args[4], ad) {
 						pegAdd = ad
 					} else {
 						refAdd = ad
@@ -300,9 +331,33 @@ func propC16(c *Ctx, r *Report) {
 				}
 				rcall := ref[0].(*ssa.Call)
 				ra := rcall.Call.Args
-				if !c.isExecHeight(ra[0]) || typePath(unwrapConv(ra[1])) != "fat2.TypedAddressAmountTuple.Amount" || unwrapConv(ra[2]) != yield ||
-					typePath(ra[3]) != "rates[fat2.TypedAddressAmountTuple.Type]" || typePath(ra[4]) != "rates[fat2.Transaction.Conversion]" {
-					bad = append(bad, fmt.Sprintf("Refund arguments are (%s, %s, yield=%v, %s, %s)", valuePath(ra[0]), typePath(unwrapConv(ra[1])), unwrapConv(ra[2]) == yield, typePath(ra[3]), typePath(ra[4])))
+				// the two rates are entries of recordPegnetRequests' first rate map (the spot rates), keyed by the input
+				// asset and by the destination
+				rateOf := func(v ssa.Value, key string) bool {
+					lk, ok := v.(*ssa.Lookup)
+					if !ok || typePath(lk.Index) != key {
+						return false
+					}
+					p := c.rootParamOf(lk.X, rp, 0)
+					if p == nil {
+						return false
+					}
+					if _, isMap := p.Type().Underlying().(*types.Map); !isMap {
+						return false
+					}
+					for _, q := range rp.Params {
+						if q == p {
+							break
+						}
+						if types.Identical(q.Type(), p.Type()) {
+							return false // not the first of the rate maps
+						}
+					}
+					return true
+				}
+				if !c.isExecHeight(ra[0]) || typePath(unwrapConv(ra[1])) != "fat2.TypedAddressAmountTuple.Amount" || !isYield(ra[2], rcall) ||
+					!rateOf(ra[3], "fat2.TypedAddressAmountTuple.Type") || !rateOf(ra[4], "fat2.Transaction.Conversion") {
+					bad = append(bad, fmt.Sprintf("Refund arguments are (%s, %s, yield=%v, %s, %s)", c.describeOrigin(ra[0]), typePath(unwrapConv(ra[1])), isYield(ra[2], rcall), stablePath(ra[3], 0), stablePath(ra[4], 0)))
 				}
 				if refAdd == nil || unwrapConv(refAdd.Common().Args[4]) != ssa.Value(rcall) {
 					bad = append(bad, "the refund credit is not the Refund() result")
@@ -315,14 +370,14 @@ func propC16(c *Ctx, r *Report) {
 					}
 				}
 				ha := hist[0].Common().Args
-				if unwrapConv(ha[4]) != yield || ha[5] != ssa.Value(rcall) {
+				if !isYield(ha[4], hist[0]) || ha[5] != ssa.Value(rcall) {
 					bad = append(bad, "the history row does not carry the credited yield and refund")
 				}
 				// totalPaid accumulates the same yield; recorded with TotalRequested()
 				ua := upd[0].Common().Args
 				sumOK := sliceHas(ua[3], func(v ssa.Value) bool {
 					bo, ok := v.(*ssa.BinOp)
-					return ok && bo.Op == token.ADD && (unwrapConv(bo.Y) == yield || unwrapConv(bo.X) == yield)
+					return ok && bo.Op == token.ADD && (isYield(bo.Y, bo) || isYield(bo.X, bo))
 				})
 				if !sumOK {
 					bad = append(bad, "bank_used is not the sum of the yields paid")
@@ -437,62 +492,62 @@ func propC16(c *Ctx, r *Report) {
 
 // settleOnce: the request list handed to a settlement call inside loop l must not reach the next iteration.
 func settleOnce(c *Ctx, r *Report, rule string, hold *ssa.Function, ci ssa.CallInstruction, l *natLoop) {
-		list := ci.Common().Args[2]
-		bad := ""
-		for _, ins := range l.header.Instrs {
-			ph, ok := ins.(*ssa.Phi)
-			if !ok {
-				continue
-			}
-			// is this the phi of the list variable? (the call argument derives from it)
-			if !sliceHas(list, func(v ssa.Value) bool { return v == ssa.Value(ph) }) && list != ssa.Value(ph) {
-				continue
-			}
-			callIns := ci.(ssa.Instruction)
-			// reachInLoop: blocks reachable from the settlement call without leaving the loop or passing its header
-			reach := map[*ssa.BasicBlock]bool{ci.Block(): true}
-			stk := []*ssa.BasicBlock{ci.Block()}
-			for len(stk) > 0 {
-				x := stk[len(stk)-1]
-				stk = stk[:len(stk)-1]
-				for _, sx := range x.Succs {
-					if sx == l.header || !l.blocks[sx] || reach[sx] {
-						continue
-					}
-					reach[sx] = true
-					stk = append(stk, sx)
+	list := ci.Common().Args[2]
+	bad := ""
+	for _, ins := range l.header.Instrs {
+		ph, ok := ins.(*ssa.Phi)
+		if !ok {
+			continue
+		}
+		// is this the phi of the list variable? (the call argument derives from it)
+		if !sliceHas(list, func(v ssa.Value) bool { return v == ssa.Value(ph) }) && list != ssa.Value(ph) {
+			continue
+		}
+		callIns := ci.(ssa.Instruction)
+		// reachInLoop: blocks reachable from the settlement call without leaving the loop or passing its header
+		reach := map[*ssa.BasicBlock]bool{ci.Block(): true}
+		stk := []*ssa.BasicBlock{ci.Block()}
+		for len(stk) > 0 {
+			x := stk[len(stk)-1]
+			stk = stk[:len(stk)-1]
+			for _, sx := range x.Succs {
+				if sx == l.header || !l.blocks[sx] || reach[sx] {
+					continue
 				}
-			}
-			stale := func(v ssa.Value) bool {
-				// the value is (derived from) the settled list and was defined before the call
-				if !(v == list || v == ssa.Value(ph) || sliceHas(v, func(x ssa.Value) bool { return x == ssa.Value(ph) })) {
-					return false
-				}
-				if vi, ok := v.(ssa.Instruction); ok {
-					return vi.Block() != callIns.Block() && vi.Block().Dominates(callIns.Block()) || vi.Block() == callIns.Block() && instrIndex(vi) < instrIndex(callIns)
-				}
-				return true
-			}
-			var chk func(v ssa.Value, pred *ssa.BasicBlock, depth int)
-			chk = func(v ssa.Value, pred *ssa.BasicBlock, depth int) {
-				if depth > 8 || !l.blocks[pred] || !reach[pred] {
-					return // this edge is not on a path that went through the settlement
-				}
-				if p2, ok := v.(*ssa.Phi); ok && p2 != ph && l.blocks[p2.Block()] && reach[p2.Block()] && !p2.Block().Dominates(callIns.Block()) {
-					for j, e2 := range p2.Edges {
-						chk(e2, p2.Block().Preds[j], depth+1)
-					}
-					return
-				}
-				if stale(v) {
-					bad = "after recordPegnetRequests settled the collected PEG requests for one held height, the same list is carried into the next iteration: requests of an earlier height are paid (and refunded) again together with the next height's"
-				}
-			}
-			for i, ed := range ph.Edges {
-				chk(ed, l.header.Preds[i], 0)
+				reach[sx] = true
+				stk = append(stk, sx)
 			}
 		}
-		r.check(bad == "", rule, "per-height settlement resets the request list", c.ipos(ci), "the list variable is re-initialised on the path from the settlement to the loop latch", bad)
+		stale := func(v ssa.Value) bool {
+			// the value is (derived from) the settled list and was defined before the call
+			if !(v == list || v == ssa.Value(ph) || sliceHas(v, func(x ssa.Value) bool { return x == ssa.Value(ph) })) {
+				return false
+			}
+			if vi, ok := v.(ssa.Instruction); ok {
+				return vi.Block() != callIns.Block() && vi.Block().Dominates(callIns.Block()) || vi.Block() == callIns.Block() && instrIndex(vi) < instrIndex(callIns)
+			}
+			return true
+		}
+		var chk func(v ssa.Value, pred *ssa.BasicBlock, depth int)
+		chk = func(v ssa.Value, pred *ssa.BasicBlock, depth int) {
+			if depth > 8 || !l.blocks[pred] || !reach[pred] {
+				return // this edge is not on a path that went through the settlement
+			}
+			if p2, ok := v.(*ssa.Phi); ok && p2 != ph && l.blocks[p2.Block()] && reach[p2.Block()] && !p2.Block().Dominates(callIns.Block()) {
+				for j, e2 := range p2.Edges {
+					chk(e2, p2.Block().Preds[j], depth+1)
+				}
+				return
+			}
+			if stale(v) {
+				bad = "after recordPegnetRequests settled the collected PEG requests for one held height, the same list is carried into the next iteration: requests of an earlier height are paid (and refunded) again together with the next height's"
+			}
+		}
+		for i, ed := range ph.Edges {
+			chk(ed, l.header.Preds[i], 0)
+		}
+	}
+	r.check(bad == "", rule, "per-height settlement resets the request list", c.ipos(ci), "the list variable is re-initialised on the path from the settlement to the loop latch", bad)
 }
 
 // ruleRejectedNotCollected: a held batch that applyTransactionBatch rejected (any reject sentinel) is not handed to
